@@ -7,6 +7,7 @@ import builtins as builtins_mod
 
 from . import facts as F
 from . import prims as PR
+from .locks import LOG_METHODS, _logger_local
 from .state import State, Out, join, Abort
 from .terms import (AnalysisError, C, P, V, J, ROOT, NONE, TRUE, FALSE, EMPTY, tag, cat, parent,
                     basename, is_const, is_rooted, classify, MAXSET)
@@ -727,6 +728,8 @@ class ExprMixin:
         # logging never raises, has no effect (assumption 3)
         if text.startswith("logging.") or text.startswith("self.fhs_logger.") or text == "print":
             return V(NONE), st
+        if isinstance(fn, ast.Attribute) and fn.attr in LOG_METHODS and isinstance(fn.value, ast.Name) and _logger_local(fn.value):
+            return V(NONE), st     # a local that only ever holds a logger
         d = self.dotted(fn, frame, st)
         if d is not None and isinstance(fn, ast.Name) and d.split(".")[-1] in self.p.classes and d.split(".")[0] == "hashstore":
             d = None  # a class of the package imported by name
@@ -963,6 +966,9 @@ class ExprMixin:
             self.raise_star(st, out)
             return frozenset(("int", t) if not (is_const(t) and isinstance(t[1], int)) else t for t in args[0]), st
         if name == "isinstance":
+            if len(n.args) > 1 and isinstance(n.args[1], ast.Tuple) and n.args[1].elts:
+                # isinstance(x, (A, B)): the disjunction of the single tests
+                return V(("bool", F.f_or([("isinstance", args[0], ast.unparse(e)) for e in n.args[1].elts]))), st
             tn = ast.unparse(n.args[1]) if len(n.args) > 1 else "?"
             return V(("bool", ("isinstance", args[0], tn))), st
         if name == "hasattr":
@@ -1009,7 +1015,12 @@ class ExprMixin:
         if name == "zip":
             return V(("zip", args[0] if args else EMPTY, args[1] if len(args) > 1 else EMPTY)), st
         if name in ("any", "all"):
-            return V(("bool", (name, args[0] if args else EMPTY))), st
+            a0 = args[0] if args else EMPTY
+            if len(a0) == 1 and tag(next(iter(a0))) == "tuple" and next(iter(a0))[1]:
+                # all((a, b, c)) / any([a, b]) over a literal collection: the conjunction / disjunction of the members' truth values
+                parts = [self.truthy(x, st) for x in next(iter(a0))[1]]
+                return V(("bool", F.f_and(parts) if name == "all" else F.f_or(parts))), st
+            return V(("bool", (name, a0))), st
         if name in ("len", "type", "range", "repr", "enumerate", "iter"):
             return V(("callres", name, tuple(sorted((args[0] if args else EMPTY), key=repr)))), st
         if name == "bytes":
